@@ -1,5 +1,3 @@
-//go:build wip_c12
-
 package kit
 
 import (
@@ -28,7 +26,7 @@ type FieldMap struct {
 	Problems []string // shapes the extractor does not decide
 }
 
-// FieldSrc is the provenance of one output field.
+// FieldSrc is the fmProv of one output field.
 type FieldSrc struct {
 	Out    *types.Var
 	Expr   ast.Expr
@@ -68,7 +66,7 @@ func (s FieldStep) String() string {
 	return s.Kind
 }
 
-func namedStruct(t types.Type) *types.Named {
+func fmNamedStruct(t types.Type) *types.Named {
 	if t == nil {
 		return nil
 	}
@@ -89,18 +87,18 @@ func namedStruct(t types.Type) *types.Named {
 
 // NamedStructOf returns the named struct type of t after one pointer
 // indirection, or nil.
-func NamedStructOf(t types.Type) *types.Named { return namedStruct(t) }
+func NamedStructOf(t types.Type) *types.Named { return fmNamedStruct(t) }
 
 // ExtractFieldMap builds the field map of f for input object in.
 func ExtractFieldMap(f *Func, in types.Object) *FieldMap {
 	info := f.Info()
-	fm := &FieldMap{F: f, In: in, InType: namedStruct(in.Type()), Entries: map[*types.Var]*FieldSrc{}}
+	fm := &FieldMap{F: f, In: in, InType: fmNamedStruct(in.Type()), Entries: map[*types.Var]*FieldSrc{}}
 	sig := f.Signature()
 	if sig == nil || sig.Results().Len() == 0 {
 		fm.Problems = append(fm.Problems, "function has no result")
 		return fm
 	}
-	fm.OutType = namedStruct(sig.Results().At(0).Type())
+	fm.OutType = fmNamedStruct(sig.Results().At(0).Type())
 	if fm.OutType == nil || fm.InType == nil {
 		fm.Problems = append(fm.Problems, "input or first result is not a named struct")
 		return fm
@@ -131,10 +129,10 @@ func ExtractFieldMap(f *Func, in types.Object) *FieldMap {
 		fm.Problems = append(fm.Problems, fmt.Sprintf("%d successful return statements (exactly one is understood)", len(rets)))
 		return fm
 	}
-	tr := &fieldTracer{fm: fm, info: info, memo: map[types.Object]*provenance{}, busy: map[types.Object]bool{}}
+	tr := &fmTracer{fm: fm, info: info, memo: map[types.Object]*fmProv{}, busy: map[types.Object]bool{}}
 	res := ast.Unparen(rets[0].Results[0])
 	var outVar types.Object
-	lit := asLit(res)
+	lit := fmAsLit(res)
 	if lit == nil {
 		if id, ok := res.(*ast.Ident); ok {
 			outVar = ObjOf(info, id)
@@ -145,7 +143,7 @@ func ExtractFieldMap(f *Func, in types.Object) *FieldMap {
 		fm.Problems = append(fm.Problems, "the successful result is not a composite literal (or a variable initialised with one)")
 		return fm
 	}
-	if n := namedStruct(info.TypeOf(lit)); n == nil || n.Obj() != fm.OutType.Obj() {
+	if n := fmNamedStruct(info.TypeOf(lit)); n == nil || n.Obj() != fm.OutType.Obj() {
 		fm.Problems = append(fm.Problems, "literal type differs from the result type")
 		return fm
 	}
@@ -181,6 +179,44 @@ func ExtractFieldMap(f *Func, in types.Object) *FieldMap {
 			continue
 		}
 		add(fld, kv.Value)
+	}
+	// the result variable must only be defined, completed field by field and returned
+	if outVar != nil {
+		ast.Inspect(f.Body, func(x ast.Node) bool {
+			id, ok := x.(*ast.Ident)
+			if !ok || ObjOf(info, id) != outVar {
+				return true
+			}
+			par := f.Prog.Parent(f.File, id)
+			switch y := par.(type) {
+			case *ast.AssignStmt:
+				for _, l := range y.Lhs {
+					if l == ast.Expr(id) {
+						return true
+					}
+				}
+			case *ast.ValueSpec:
+				return true
+			case *ast.ReturnStmt:
+				return true
+			case *ast.SelectorExpr:
+				if as, ok := f.Prog.Parent(f.File, y).(*ast.AssignStmt); ok {
+					for _, l := range as.Lhs {
+						if l == ast.Expr(y) {
+							return true
+						}
+					}
+				}
+				// reading a field back is harmless
+				if s2, ok := info.Selections[y]; ok && s2.Kind() == types.FieldVal {
+					if _, isCallFun := f.Prog.Parent(f.File, y).(*ast.CallExpr); !isCallFun {
+						return true
+					}
+				}
+			}
+			fm.Problems = append(fm.Problems, "the result variable "+id.Name+" is used at "+f.At(id)+" in a way that may set fields out of sight")
+			return true
+		})
 	}
 	// v.F = expr completions
 	if outVar != nil {
@@ -218,7 +254,7 @@ func (f *Func) Signature() *types.Signature {
 	return nil
 }
 
-func asLit(e ast.Expr) *ast.CompositeLit {
+func fmAsLit(e ast.Expr) *ast.CompositeLit {
 	e = ast.Unparen(e)
 	if u, ok := e.(*ast.UnaryExpr); ok && u.Op == token.AND {
 		e = ast.Unparen(u.X)
@@ -227,12 +263,13 @@ func asLit(e ast.Expr) *ast.CompositeLit {
 	return l
 }
 
-type provenance struct {
+type fmProv struct {
 	fields map[*types.Var]bool
 	steps  []FieldStep
+	whole  bool // the value is the input struct itself (or a copy / pointer to it)
 }
 
-func (p *provenance) fieldList() []*types.Var {
+func (p *fmProv) fieldList() []*types.Var {
 	var out []*types.Var
 	for f := range p.fields {
 		out = append(out, f)
@@ -241,16 +278,16 @@ func (p *provenance) fieldList() []*types.Var {
 	return out
 }
 
-func (p *provenance) with(step FieldStep) *provenance {
+func (p *fmProv) with(step FieldStep) *fmProv {
 	if len(p.fields) == 0 {
 		return p
 	}
-	q := &provenance{fields: p.fields, steps: append(append([]FieldStep{}, p.steps...), step)}
+	q := &fmProv{fields: p.fields, steps: append(append([]FieldStep{}, p.steps...), step)}
 	return q
 }
 
-func mergeProv(ps ...*provenance) *provenance {
-	out := &provenance{fields: map[*types.Var]bool{}}
+func fmMergeProv(ps ...*fmProv) *fmProv {
+	out := &fmProv{fields: map[*types.Var]bool{}}
 	n := 0
 	for _, p := range ps {
 		if p == nil || len(p.fields) == 0 {
@@ -265,18 +302,25 @@ func mergeProv(ps ...*provenance) *provenance {
 	if n > 1 {
 		out.steps = []FieldStep{{Kind: "expr", Note: "several sources"}}
 	}
+	if n == 0 {
+		for _, p := range ps {
+			if p != nil && p.whole {
+				out.whole = true
+			}
+		}
+	}
 	return out
 }
 
-type fieldTracer struct {
+type fmTracer struct {
 	fm       *FieldMap
 	info     *types.Info
-	memo     map[types.Object]*provenance
+	memo     map[types.Object]*fmProv
 	busy     map[types.Object]bool
 	problems []string
 }
 
-func (tr *fieldTracer) singleLitDef(v types.Object) *ast.CompositeLit {
+func (tr *fmTracer) singleLitDef(v types.Object) *ast.CompositeLit {
 	if v == nil {
 		return nil
 	}
@@ -289,17 +333,15 @@ func (tr *fieldTracer) singleLitDef(v types.Object) *ast.CompositeLit {
 				if id, ok := ast.Unparen(l).(*ast.Ident); ok && ObjOf(tr.info, id) == v {
 					n++
 					if len(y.Rhs) == len(y.Lhs) {
-						lit = asLit(y.Rhs[i])
+						lit = fmAsLit(y.Rhs[i])
 					}
 				}
 			}
 		case *ast.ValueSpec:
 			for i, nm := range y.Names {
-				if tr.info.Defs[nm] == v {
+				if tr.info.Defs[nm] == v && i < len(y.Values) {
 					n++
-					if i < len(y.Values) {
-						lit = asLit(y.Values[i])
-					}
+					lit = fmAsLit(y.Values[i])
 				}
 			}
 		}
@@ -311,56 +353,63 @@ func (tr *fieldTracer) singleLitDef(v types.Object) *ast.CompositeLit {
 	return lit
 }
 
-func emptyProv() *provenance { return &provenance{fields: map[*types.Var]bool{}} }
+func fmEmptyProv() *fmProv { return &fmProv{fields: map[*types.Var]bool{}} }
 
 // prov traces an expression back to input fields.
-func (tr *fieldTracer) prov(e ast.Expr) *provenance {
+func (tr *fmTracer) prov(e ast.Expr) *fmProv {
 	info := tr.info
 	e = ast.Unparen(e)
 	if tv, ok := info.Types[e]; ok && tv.Value != nil {
-		return emptyProv()
+		return fmEmptyProv()
 	}
 	switch x := e.(type) {
 	case *ast.SelectorExpr:
 		if sel, ok := info.Selections[x]; ok && sel.Kind() == types.FieldVal {
-			if ObjOf(info, x.X) == tr.fm.In {
+			base := tr.prov(x.X)
+			if base.whole && len(sel.Index()) == 1 {
 				if fld, ok := sel.Obj().(*types.Var); ok {
-					return &provenance{fields: map[*types.Var]bool{fld: true}}
+					return &fmProv{fields: map[*types.Var]bool{fld: true}}
 				}
 			}
-			return tr.prov(x.X).with(FieldStep{Kind: "sub", Note: x.Sel.Name})
+			return base.with(FieldStep{Kind: "sub", Note: x.Sel.Name})
 		}
-		return emptyProv()
+		return fmEmptyProv()
 	case *ast.Ident:
 		o := ObjOf(info, x)
 		if o == nil {
-			return emptyProv()
+			return fmEmptyProv()
 		}
 		if o == tr.fm.In {
-			return &provenance{fields: map[*types.Var]bool{}, steps: nil}
+			return &fmProv{fields: map[*types.Var]bool{}, whole: true}
 		}
 		if v, ok := o.(*types.Var); ok && !v.IsField() && v.Pkg() != nil && v.Parent() != v.Pkg().Scope() {
 			return tr.varProv(o)
 		}
-		return emptyProv()
+		return fmEmptyProv()
 	case *ast.UnaryExpr:
 		p := tr.prov(x.X)
 		if x.Op == token.AND {
+			if p.whole {
+				return p
+			}
 			return p.with(FieldStep{Kind: "addr"})
 		}
 		return p.with(FieldStep{Kind: "expr", Note: x.Op.String()})
 	case *ast.StarExpr:
+		if p := tr.prov(x.X); p.whole {
+			return p
+		}
 		return tr.prov(x.X).with(FieldStep{Kind: "deref"})
 	case *ast.CallExpr:
 		return tr.callProv(x, 0)
 	case *ast.BinaryExpr:
-		return mergeProv(tr.prov(x.X), tr.prov(x.Y)).with(FieldStep{Kind: "expr", Note: x.Op.String()})
+		return fmMergeProv(tr.prov(x.X), tr.prov(x.Y)).with(FieldStep{Kind: "expr", Note: x.Op.String()})
 	case *ast.IndexExpr:
-		return mergeProv(tr.prov(x.X), tr.prov(x.Index)).with(FieldStep{Kind: "expr", Note: "index"})
+		return fmMergeProv(tr.prov(x.X), tr.prov(x.Index)).with(FieldStep{Kind: "expr", Note: "index"})
 	case *ast.SliceExpr:
 		return tr.prov(x.X).with(FieldStep{Kind: "expr", Note: "slice"})
 	case *ast.CompositeLit:
-		var ps []*provenance
+		var ps []*fmProv
 		for _, el := range x.Elts {
 			if kv, ok := el.(*ast.KeyValueExpr); ok {
 				ps = append(ps, tr.prov(kv.Value))
@@ -368,14 +417,14 @@ func (tr *fieldTracer) prov(e ast.Expr) *provenance {
 				ps = append(ps, tr.prov(el))
 			}
 		}
-		return mergeProv(ps...).with(FieldStep{Kind: "expr", Note: "literal"})
+		return fmMergeProv(ps...).with(FieldStep{Kind: "expr", Note: "literal"})
 	case *ast.TypeAssertExpr:
 		return tr.prov(x.X).with(FieldStep{Kind: "expr", Note: "assert"})
 	}
-	return emptyProv()
+	return fmEmptyProv()
 }
 
-func (tr *fieldTracer) callProv(call *ast.CallExpr, result int) *provenance {
+func (tr *fmTracer) callProv(call *ast.CallExpr, result int) *fmProv {
 	info := tr.info
 	// conversion
 	if tv, ok := info.Types[call.Fun]; ok && tv.IsType() && len(call.Args) == 1 {
@@ -385,18 +434,22 @@ func (tr *fieldTracer) callProv(call *ast.CallExpr, result int) *provenance {
 	if b, ok := callee.(*types.Builtin); ok {
 		switch b.Name() {
 		case "len", "cap", "make", "new":
-			return emptyProv() // sizing only
+			return fmEmptyProv() // sizing only
 		case "append":
-			var ps []*provenance
+			var ps []*fmProv
 			for _, a := range call.Args {
 				ps = append(ps, tr.prov(a))
 			}
-			return mergeProv(ps...).with(FieldStep{Kind: "expr", Note: "append"})
+			// dst = append(dst, elem) inside a range loop is an element store
+			if len(call.Args) == 2 && !call.Ellipsis.IsValid() {
+				return fmMergeProv(ps...).with(FieldStep{Kind: "store", Note: tr.appendShape(call)})
+			}
+			return fmMergeProv(ps...).with(FieldStep{Kind: "expr", Note: "append"})
 		}
 	}
 	type operand struct {
 		pos int
-		p   *provenance
+		p   *fmProv
 	}
 	var ops []operand
 	var consts []FieldArg
@@ -404,7 +457,11 @@ func (tr *fieldTracer) callProv(call *ast.CallExpr, result int) *provenance {
 	if sel, ok := ast.Unparen(call.Fun).(*ast.SelectorExpr); ok {
 		if s, ok := info.Selections[sel]; ok && s.Kind() == types.MethodVal {
 			kind = "method"
-			if p := tr.prov(sel.X); len(p.fields) > 0 {
+			p := tr.prov(sel.X)
+			if p.whole {
+				tr.problems = append(tr.problems, "a method of the whole input struct ("+QualName(callee)+") feeds the result at "+tr.fm.F.At(call))
+			}
+			if len(p.fields) > 0 {
 				ops = append(ops, operand{-1, p})
 			}
 		}
@@ -414,37 +471,41 @@ func (tr *fieldTracer) callProv(call *ast.CallExpr, result int) *provenance {
 			consts = append(consts, FieldArg{i, c})
 			continue
 		}
-		if p := tr.prov(a); len(p.fields) > 0 {
+		p := tr.prov(a)
+		if p.whole {
+			tr.problems = append(tr.problems, "the whole input struct is passed to "+QualName(callee)+" at "+tr.fm.F.At(call))
+		}
+		if len(p.fields) > 0 {
 			ops = append(ops, operand{i, p})
 		}
 	}
 	switch len(ops) {
 	case 0:
-		return emptyProv()
+		return fmEmptyProv()
 	case 1:
 		return ops[0].p.with(FieldStep{Kind: kind, Callee: callee, Call: call, Arg: ops[0].pos, Consts: consts, Result: result})
 	}
-	var ps []*provenance
+	var ps []*fmProv
 	for _, o := range ops {
 		ps = append(ps, o.p)
 	}
-	return mergeProv(ps...).with(FieldStep{Kind: "expr", Note: "call with several traced operands"})
+	return fmMergeProv(ps...).with(FieldStep{Kind: "expr", Note: "call with several traced operands"})
 }
 
-// varProv unions the provenance of every assignment to a local variable
+// varProv unions the fmProv of every assignment to a local variable
 // (including element stores v[i] = e and range bindings).
-func (tr *fieldTracer) varProv(v types.Object) *provenance {
+func (tr *fmTracer) varProv(v types.Object) *fmProv {
 	if p, ok := tr.memo[v]; ok {
 		return p
 	}
 	if tr.busy[v] {
-		return emptyProv()
+		return fmEmptyProv()
 	}
 	tr.busy[v] = true
 	defer delete(tr.busy, v)
 	info := tr.info
 	f := tr.fm.F
-	var ps []*provenance
+	var ps []*fmProv
 	ast.Inspect(f.Body, func(x ast.Node) bool {
 		switch y := x.(type) {
 		case *ast.FuncLit:
@@ -493,14 +554,32 @@ func (tr *fieldTracer) varProv(v types.Object) *provenance {
 		}
 		return true
 	})
-	p := mergeProv(ps...)
+	p := fmMergeProv(ps...)
 	tr.memo[v] = p
 	return p
 }
 
+// appendShape checks `dst = append(dst, e)` directly inside a range loop.
+func (tr *fmTracer) appendShape(call *ast.CallExpr) string {
+	f := tr.fm.F
+	as, ok := f.Prog.Parent(f.File, call).(*ast.AssignStmt)
+	if !ok || len(as.Lhs) != 1 || ObjOf(tr.info, as.Lhs[0]) == nil || ObjOf(tr.info, as.Lhs[0]) != ObjOf(tr.info, call.Args[0]) {
+		return "append result is not assigned back to its first argument"
+	}
+	rs, _ := f.Enclosing(call, func(n ast.Node) bool { _, ok := n.(*ast.RangeStmt); return ok }).(*ast.RangeStmt)
+	if rs == nil {
+		return "append outside a range loop"
+	}
+	// the append must run on every iteration: directly in the loop body
+	if blk, ok := f.Prog.Parent(f.File, as).(*ast.BlockStmt); !ok || blk != rs.Body {
+		return "append is conditional"
+	}
+	return ""
+}
+
 // storeShape checks `dst[i] = …` inside `for i, p := range src`: the index
 // must be the range key of the innermost enclosing range statement.
-func (tr *fieldTracer) storeShape(ix *ast.IndexExpr, at ast.Node) string {
+func (tr *fmTracer) storeShape(ix *ast.IndexExpr, at ast.Node) string {
 	f := tr.fm.F
 	rs, _ := f.Enclosing(at, func(n ast.Node) bool { _, ok := n.(*ast.RangeStmt); return ok }).(*ast.RangeStmt)
 	if rs == nil {
@@ -508,6 +587,9 @@ func (tr *fieldTracer) storeShape(ix *ast.IndexExpr, at ast.Node) string {
 	}
 	if rs.Key == nil || ObjOf(tr.info, rs.Key) == nil || ObjOf(tr.info, rs.Key) != ObjOf(tr.info, ix.Index) {
 		return "store index is not the range key"
+	}
+	if blk, ok := f.Prog.Parent(f.File, at).(*ast.BlockStmt); !ok || blk != rs.Body {
+		return "store is conditional"
 	}
 	return ""
 }
